@@ -19,24 +19,22 @@ from cryptography.hazmat.primitives.asymmetric import ec, utils as asym_utils
 from .. import env
 from ..xplore import HarnessError
 from . import layout as L
+from . import seams
 
 P256_N = 0xFFFFFFFF00000000FFFFFFFFFFFFFFFFBCE6FAADA7179E84F3B9CAC2FC632551
 
-# The fixed "now" of every SGX execution (admin.certificate_v2.datetime is replaced).
-CLOCK = datetime.datetime(2026, 6, 1, 12, 0, 0, tzinfo=datetime.timezone.utc)
+# The "now" of every SGX execution: noon (UTC) of the current day, owned through
+# admin.certificate_v2's datetime (seams.install_clock) and, because all validity windows keep a
+# margin of at least a day around it, equally true for any real clock the code might consult.
+CLOCK = seams.today_noon_utc()
 
 AUTH_DATA_LEN = 64 + 64 + L.REPORT_BODY_LEN + 64       # sgx_quote_auth_data_t = 576
 PEM_BEGIN = b"-----BEGIN CERTIFICATE-----\n"
 PEM_END = b"-----END CERTIFICATE-----\n"
 
 
-class FixedClock:
-    """Stand-in for the ``datetime`` class inside admin.certificate_v2."""
-    current = CLOCK
-
-    @classmethod
-    def now(cls, tz=None):
-        return cls.current
+FixedClock = seams.FixedClock
+FixedClock.current = CLOCK
 
 
 # -- keys -----------------------------------------------------------------------------
